@@ -1,4 +1,7 @@
-/* TRIAGE ONLY (C16/C13): the release of an external element fails (its external file cannot take the buffered bytes: the data start
+/* TRIAGE ONLY (C16/C13) — KEPT AS A RECORD OF A WITHDRAWN REPAIR, see DESIGN 11.5.  The behaviour shown here (Hclose fails with
+ * DFE_OPENAID after a failed release) is what keeps an unnoticed Hendaccess failure visible; detaching on the failure exit was
+ * tried (6a4e2fc) and taken back (f1070b2) because the C16 lemma ATTACH showed it would hide such failures.
+ * Original note: the release of an external element fails (its external file cannot take the buffered bytes: the data start
  * 1 MiB into the external file and RLIMIT_FSIZE is 64 KiB, SIGXFSZ ignored).  Hendaccess reports FAIL and the access id is gone —
  * but the special end-access routine left through its failure exit without detaching from the file: `file_rec->attach` stays 1
  * and Hclose fails with DFE_OPENAID for ever, so the descriptors of everything else written in the session are never flushed.
